@@ -1016,6 +1016,7 @@ func Run(prefix []int, sigs []uint32, opt Options, body func()) *Exec {
 	}
 	wgs = map[uintptr]*wgState{}
 	resetSyncx()
+	resetAtoms()
 	e.Net = newNetwork(e)
 	cur = e
 	e.lastProg.Store(time.Now().UnixNano())
